@@ -111,7 +111,13 @@ CLAIMED['C20'] = ('E5 stateful', 'stateful property testing of instance interlea
                   'known finding config-singleton, attributed only when the quirk model predicts the observed trace exactly.',
                   'Trusted: the harness owns the schedule (whole emulate_cycle calls); no threads.', 'DESIGN.md section 5 C20')
 
-NOT_YET = {'C15': 'reference page-table walker (vf/ref/mmu.py) not finished in this revision; property-based testing applies and the check is being built (DESIGN.md section 5 C15)'}
+CLAIMED['C15'] = ('E3 unitdiff + E1 stepdiff', 'property-based differential testing against a reference page-table walker (tables built by construction + arbitrary descriptors)',
+                  'translate_address is compared with an independent short-descriptor walker (TTBR0/1 split, sections, supersections, large/small pages, domains, AP/APX with AFE, '
+                  'access flag, TEX remap / table B3-10, EE, FCSE) and a long-descriptor stage-1 walker on page tables built by construction plus arbitrary descriptor words: PA, memory '
+                  'type, fault kind and level, DFSR/DFAR. Loads/stores are executed end to end with the MMU on through virtual windows with random permissions. Stock and hooked targets.',
+                  'Trusted: vf/ref/mmu.py (B3). Stage 2, the Hyp regime and hardware access-flag update are excluded (mock hooks).', 'DESIGN.md section 5 C15')
+
+NOT_YET = {}
 
 
 def main():
@@ -149,7 +155,7 @@ def main():
         'engines': [
             {'name': 'E1 stepdiff', 'path': 'vf/props', 'serves_properties': ['C01', 'C02', 'C03', 'C04', 'C05', 'C08', 'C09', 'C10', 'C12'], 'kind_free_text': 'differential stepping of emulate_cycle against the reference model vf/ref'},
             {'name': 'E2 decodediff', 'path': 'vf/props/decode_check.py', 'serves_properties': ['C06', 'C07'], 'kind_free_text': 'joint path enumeration of decoders and reference encoding tables'},
-            {'name': 'E3 unitdiff', 'path': 'vf/props/c17.py', 'serves_properties': ['C11', 'C13', 'C14', 'C17'], 'kind_free_text': 'direct calls of helpers against independent re-implementations'},
+            {'name': 'E3 unitdiff', 'path': 'vf/props/c17.py', 'serves_properties': ['C11', 'C13', 'C14', 'C15', 'C17'], 'kind_free_text': 'direct calls of helpers against independent re-implementations'},
             {'name': 'E4 totality', 'path': 'vf/props/c18.py', 'serves_properties': ['C18', 'C19'], 'kind_free_text': 'validity-predicate fuzzing of emulate_cycle'},
             {'name': 'E5 stateful', 'path': 'vf/props/c16.py', 'serves_properties': ['C10', 'C16', 'C20'], 'kind_free_text': 'Hypothesis rule-based state machines against in-memory models'},
         ],
